@@ -1,12 +1,90 @@
 import Driver.Util
-/- Line-protocol handler for the `retry` model (stub until the model exists). -/
+import Driver.Cred
+import Munge.Model.Retry
+import Munge.Model.ToyPrims
+/- Line-protocol handler for the `retry` model (same ops as harness/h_retry.c, toy-primitive build).
+
+   retry conf k=v ..                     set the daemon's environment / configuration (keys as for `cred conf`)
+   retry reset                           empty the daemon's replay cache
+   retry enc <sched> c= m= z= ttl= au= ag= realm=<hex|-> data=<hex|-|rep:XX:N> [k=v ..]
+   retry dec <sched> cred=<hex> [k=v ..]
+   <sched> = `-` or comma separated  qN | QN | f | pN | ok   (one entry per attempt) -/
 namespace Driver.Retry
+open Munge Munge.Cred Munge.Retry
 
 structure St where
-  dummy : Unit := ()
+  c : Driver.Cred.St := {}
 
 def init : St := {}
 
-def step (st : St) (_args : List String) : St × String := (st, "bad-op")
+def parseFault (s : String) : Option Fault :=
+  if s == "f" then some .f
+  else if s == "ok" then some .ok
+  else match s.toList with
+    | 'q' :: r => (String.ofList r).toNat?.map .q
+    | 'Q' :: r => (String.ofList r).toNat?.map .q
+    | 'p' :: r => (String.ofList r).toNat?.map .p
+    | _ => none
+
+def parseSched (s : String) : Option (List Fault) :=
+  if s == "-" then some [] else (s.splitOn ",").mapM parseFault
+
+/-- `<hex>`, `-`, or `rep:XX:N` (N copies of byte XX) -/
+def parseData (s : String) : Option Bytes :=
+  match s.splitOn ":" with
+  | ["rep", b, n] => do
+    let bb ← Hex.ofHex b
+    let k ← n.toNat?
+    pure (List.replicate k (bb.getD 0 0))
+  | _ => Hex.ofHex s
+
+def envOf (c : Driver.Cred.St) : Env :=
+  { now := c.now, peer := c.peer, rnd := c.rnd, member := fun u g => c.mem.contains (u, g) }
+
+def showTrace (tr : List (Nat × Nat)) : String :=
+  if tr.isEmpty then "-" else
+  String.intercalate "," (tr.map fun (r, d) => if d ≥ 7 then toString r else "-")
+
+def showSleeps (sl : List Int) : String :=
+  if sl.isEmpty then "-" else String.intercalate "," (sl.map toString)
+
+def optHex (b : Option Bytes) : String :=
+  match b with
+  | none => "NULL"
+  | some x => Hex.showHex x
+
+def cstr (b : Bytes) : Bytes := b.takeWhile (· ≠ 0)
+
+def num (args : List String) (key : String) (dflt : Nat) : Nat :=
+  ((Driver.Cred.flag args key).bind String.toNat?).getD dflt
+
+def step (st : St) (args : List String) : St × String :=
+  match args with
+  | "conf" :: rest => ({ st with c := Driver.Cred.setEnv st.c rest }, "ok")
+  | "reset" :: _ => ({ st with c := { st.c with rs := [] } }, "ok")
+  | "enc" :: sch :: rest =>
+    match parseSched sch, ((Driver.Cred.flag rest "realm").getD "-" |> Hex.ofHex),
+          ((Driver.Cred.flag rest "data").getD "-" |> parseData) with
+    | some sched, some realm, some data =>
+      let c := Driver.Cred.setEnv st.c rest
+      let m : Msg := { cipher := num rest "c" 1, mac := num rest "m" 1, zip := num rest "z" 1,
+                       realmLen := realm.length % 256, realm := realm, ttl := num rest "ttl" 0,
+                       authUid := num rest "au" 4294967295, authGid := num rest "ag" 4294967295,
+                       dataLen := data.length, data := data }
+      let (r, x) := mungeEncode ToyPrims.prims c.cf (envOf c) c.rs m sched
+      ({ st with c := { c with rs := x.rs } },
+       s!"err={r.err} cred={optHex (r.cred.map cstr)} n={x.trace.length} tr={showTrace x.trace} sl={showSleeps x.sleeps}")
+    | _, _, _ => (st, "bad-op")
+  | "dec" :: sch :: rest =>
+    match parseSched sch, ((Driver.Cred.flag rest "cred").getD "-" |> Hex.ofHex) with
+    | some sched, some cred =>
+      let c := Driver.Cred.setEnv st.c rest
+      let (r, x) := mungeDecode ToyPrims.prims c.cf (envOf c) c.rs (cred ++ [0]) sched
+      ({ st with c := { c with rs := x.rs } },
+       s!"err={r.err} data={optHex r.data} len={r.len} uid={r.uid} gid={r.gid} cipher={r.cipher} mac={r.mac} zip={r.zip} " ++
+       s!"realm={optHex (r.realm.map cstr)} ttl={r.ttl} addr={Hex.showHex r.addr} t0={r.time0} t1={r.time1} " ++
+       s!"au={r.authUid} ag={r.authGid} n={x.trace.length} tr={showTrace x.trace} sl={showSleeps x.sleeps}")
+    | _, _ => (st, "bad-op")
+  | _ => (st, "bad-op")
 
 end Driver.Retry
